@@ -270,6 +270,17 @@ def navigation_agrees(stmt, rng, max_offsets=400, max_groups=60):
             if got != i:
                 return 'token_index(child %d) = %d in %s' % (
                     i, got, type(g).__name__), calls
+            # documented defaults: skip_ws=True, skip_cm=False
+            calls += 2
+            dn = g.token_next(i)
+            en = g.token_next(i, skip_ws=True, skip_cm=False)
+            dp = g.token_prev(i)
+            ep = g.token_prev(i, skip_ws=True, skip_cm=False)
+            if dn[0] != en[0] or dp[0] != ep[0]:
+                return ('token_next/token_prev(%d) with default arguments '
+                        'gave %r/%r, with skip_ws=True, skip_cm=False %r/%r '
+                        'in %s %r' % (i, dn[0], dp[0], en[0], ep[0],
+                                      type(g).__name__, g.value[:40])), calls
             # with a start hint (an index or an earlier sibling)
             if i > 0:
                 j = rng.randrange(0, i + 1)
@@ -314,6 +325,22 @@ def navigation_agrees(stmt, rng, max_offsets=400, max_groups=60):
                                 '%s %r gave index %r, naive scan %r'
                                 % (i, skip_ws, skip_cm, type(g).__name__,
                                    g.value[:40], got[0], want[0])), calls
+    # token_first: documented defaults skip_ws=True, skip_cm=False
+    for g in groups[:20]:
+        calls += 3
+        for kw, sw, sc in (({}, True, False), ({'skip_ws': False}, False,
+                                               False),
+                           ({'skip_cm': True}, True, True)):
+            want = None
+            for t in g.tokens:
+                if not ((sw and t.is_whitespace) or (sc and _is_comment(t))):
+                    want = t
+                    break
+            got = g.token_first(**kw)
+            if got is not want:
+                return ('token_first(%r) in %s %r gave %r, naive scan %r'
+                        % (kw, type(g).__name__, g.value[:40], got,
+                           want)), calls
     # offsets
     lv = leaves(stmt)
     total = sum(len(l.value) for l in lv)
